@@ -54,15 +54,6 @@ func varStringList(env *constEnv, rel, name string) []string {
 	return nil
 }
 
-func strConst(env *constEnv, rel, name string) string {
-	v, ok := env.vals[name]
-	if !ok || v.Kind() != constant.String {
-		fail("%s: string constant %s not found", rel, name)
-		return ""
-	}
-	return constant.StringVal(v)
-}
-
 // byteSliceOfStringConv recognises `[]byte(`lit`)` and returns lit.
 func byteSliceOfStringConv(e ast.Expr) (string, bool) {
 	c, ok := e.(*ast.CallExpr)
